@@ -283,10 +283,33 @@ static void one_case(uint64_t caseseed, int merge_style, long unit, long idx)
 	rep_case_done(nontrivial, order_hash ^ caseseed, 0);
 }
 
+/* the process in which scripts run interleaved is an old one: thousands of sessions of every codec have been created, fed
+ * (with duplicates), completed, failed and released in it before the first compared case; the solo replay runs in a fresh process */
+static void age_process(uint64_t seed, int ncases)
+{
+	static script_t S[MAXS];
+	rng_t r = rng_make(seed, 1299, 7); uint64_t sessions = 0, completed = 0;
+	for (int c = 0; c < ncases; c++) {
+		int m = gen_scripts(rng_u64(&r) >> 1, S);
+		rng_t rr = rng_make(seed, 1298, (uint64_t)c);
+		if (prepare_blocks(S, m, &rr) == 0)
+			for (int i = 0; i < m; i++) {
+				script_t *s = &S[i];
+				while (s->pc < s->nsteps) script_step(s);
+				sessions++;
+				for (int j = 0; j < s->nlog; j++) if (s->log[j].complete == 1) { completed++; break; }
+			}
+		free_scripts(S, m);
+	}
+	rep_count("sessions_run_in_the_process_before_the_compared_ones", sessions);
+	rep_count("of_which_reached_completion", completed);
+}
+
 int p_c12(void)
 {
 	g_prop = "C12";
 	int T = g_run.thorough; long unit = 0;
+	age_process(g_run.seed, T ? 12000 : 3000);
 	int nunits = 64; long per = T ? 1600 : 32;
 	for (int u = 0; u < nunits; u++, unit++) {
 		rep_unit(unit);
